@@ -72,6 +72,10 @@ pub fn repo_tests() -> String {
     format!("{}/tests", std::env::var("ADLT_REPO").unwrap_or_else(|_| "/repo".to_string()))
 }
 
+pub fn can_fibex_dir() -> String {
+    crate::engine::verif_dir().join("data/can_fibex").to_string_lossy().into_owned()
+}
+
 pub fn mk_plugins() -> Vec<Box<dyn Plugin + Send>> {
     let mut eac = eac_stats::EacStats::new();
     let mut v: Vec<Box<dyn Plugin + Send>> = vec![];
@@ -80,7 +84,9 @@ pub fn mk_plugins() -> Vec<Box<dyn Plugin + Send>> {
         serde_json::json!({"name":"FileTransfer","allowSave":true}),
         serde_json::json!({"name":"NonVerbose","fibexDir":repo_tests()}),
         serde_json::json!({"name":"SomeIp","fibexDir":repo_tests()}),
-        serde_json::json!({"name":"CAN","fibexDir":repo_tests()}),
+        // (the repository has no FIBEX with a CAN channel: /verif/data/can_fibex/can1.xml describes one, so that the
+        // decoding paths of the plugin run as well)
+        serde_json::json!({"name":"CAN","fibexDir":can_fibex_dir()}),
         serde_json::json!({"name":"Muniic","jsonDir":format!("{}/muniic", repo_tests())}),
         rewrite,
     ] {
